@@ -1,4 +1,158 @@
-/- driver operations of C18 (stub: no model yet) -/
+import EvoModel.Model.Basic
+import EvoModel.Model.Hex
+import EvoModel.Model.Config
+import EvoModel.Gen.Settings
+import EvoModel.Gen.Options
+/-! driver operations of C18.
+Values on the wire: atoms `n` | `b0`/`b1` | `i<int>` | `f<p/q>` | `s<hex>`; a list is `l<k>` followed by k atoms;
+a dict is `<n>` followed by n × (`<hexkey>` value). -/
 namespace Evo.Drv.C18
-def handle (_op : String) (_args : List String) : Option String := none
+open Evo Evo.Config
+
+def showAtom : Atom → String
+  | .null => "n"
+  | .bool b => if b then "b1" else "b0"
+  | .int i => "i" ++ toString i
+  | .flt r => "f" ++ showRat r
+  | .str s => "s" ++ Hex.hex s
+
+def showVal : JVal → String
+  | .atom a => showAtom a
+  | .list l => " ".intercalate (("l" ++ toString l.length) :: l.map showAtom)
+
+def showDict (d : Dict) : String :=
+  " ".intercalate (toString d.length :: d.map fun kv => Hex.hex kv.1 ++ " " ++ showVal kv.2)
+
+def readAtom (t : String) : Option Atom :=
+  match t.toList with
+  | ['n'] => some .null
+  | ['b', '0'] => some (.bool false)
+  | ['b', '1'] => some (.bool true)
+  | 'i' :: r => (String.ofList r).toInt?.map .int
+  | 'f' :: r => (parseRat? (String.ofList r)).map .flt
+  | 's' :: r => (Hex.unhex (String.ofList r)).map .str
+  | _ => none
+
+def readVal : List String → Option (JVal × List String)
+  | [] => none
+  | t :: rest =>
+    match t.toList with
+    | 'l' :: r => do
+        let n ← (String.ofList r).toNat?
+        let (a, b) ← takeN n rest
+        let as ← a.mapM readAtom
+        some (.list as, b)
+    | _ => (readAtom t).map fun a => (.atom a, rest)
+
+def readEntries : Nat → List String → Option (Dict × List String)
+  | 0, l => some ([], l)
+  | n + 1, k :: rest => do
+      let k ← Hex.unhex k
+      let (v, rest) ← readVal rest
+      let (d, rest) ← readEntries n rest
+      some ((k, v) :: d, rest)
+  | _, [] => none
+
+def readDict : List String → Option (Dict × List String)
+  | [] => none
+  | n :: rest => do
+      let n ← n.toNat?
+      readEntries n rest
+
+def readStrs : List String → Option (List String × List String)
+  | [] => none
+  | n :: rest => do
+      let n ← n.toNat?
+      let (a, b) ← takeN n rest
+      let ss ← a.mapM Hex.unhex
+      some (ss, b)
+
+def showErr : Err → String
+  | .overflow => "E_OVERFLOW" | .unsupported => "E_UNSUPPORTED" | .locked => "REFUSED"
+
+def showRes : Except Err Dict → String
+  | .ok d => showDict d
+  | .error e => showErr e
+
+def tableOf : String → Option (List Opt)
+  | "ape" => some Gen.apeOptions | "rpe" => some Gen.rpeOptions | "traj" => some Gen.trajOptions | _ => none
+
+/-- ops:
+  `set <dict> <strs>` · `resetsub <dict> <strs>` · `resetall` · `merge <soft> <dict> <dict>` · `upgrade <dict>`
+  `lock <dict> <hexkey> <value>` · `generate <strs>` · `generateold <strs>`
+  `mergecfg <args> <config> <settings>` → `<dict> | <dict>`
+  `argparse <app> <strs>` → dict | `E_ARGS` · `viaconfig <app> <strs>` = merge_config(defaults, generate(strs)) namespace
+  `isnumber <hex>` → `0` | `1 <float as p/q | E_OVERFLOW>` · `defaults` → dict -/
+def handle (op : String) (args : List String) : Option String :=
+  match op with
+  | "set" => do
+      let (d, rest) ← readDict args
+      let (ss, _) ← readStrs rest
+      some (showRes (setConfig d ss))
+  | "resetsub" => do
+      let (d, rest) ← readDict args
+      let (ss, _) ← readStrs rest
+      some (showDict (resetSubset Gen.defaultSettings d ss))
+  | "resetall" => some (showDict Gen.defaultSettings)
+  | "defaults" => some (showDict Gen.defaultSettings)
+  | "merge" =>
+      match args with
+      | soft :: rest => do
+          let (a, rest) ← readDict rest
+          let (b, _) ← readDict rest
+          some (showDict (mergeDicts a b (soft = "1")))
+      | [] => none
+  | "upgrade" => do
+      let (d, _) ← readDict args
+      some (showDict (upgrade Gen.defaultSettings d))
+  | "lock" => do
+      let (d, rest) ← readDict args
+      match rest with
+      | k :: vrest => do
+          let k ← Hex.unhex k
+          let (v, _) ← readVal vrest
+          some (showRes (lockedSet d k v))
+      | [] => none
+  | "generate" => do
+      let (ss, _) ← readStrs args
+      some (showRes (generate ss))
+  | "generateold" => do
+      let (ss, _) ← readStrs args
+      some (showRes (generateOld ss))
+  | "mergecfg" => do
+      let (a, rest) ← readDict args
+      let (c, rest) ← readDict rest
+      let (s, _) ← readDict rest
+      let r := mergeConfig a c s
+      some (showDict r.1 ++ " | " ++ showDict r.2)
+  | "argparse" =>
+      match args with
+      | app :: rest => do
+          let t ← tableOf app
+          let (ss, _) ← readStrs rest
+          match argparseLong t ss (defaultsOf t) with
+          | some d => some (showDict d)
+          | none => some "E_ARGS"
+      | [] => none
+  | "viaconfig" =>
+      match args with
+      | app :: rest => do
+          let t ← tableOf app
+          let (ss, _) ← readStrs rest
+          match generate ss with
+          | .ok c => some (showDict (mergeConfig (defaultsOf t) c []).1)
+          | .error e => some (showErr e)
+      | [] => none
+  | "isnumber" =>
+      match args with
+      | [h] => do
+          let s ← Hex.unhex h
+          if isNumber s then
+            match toFloat s with
+            | .ok x => some ("1 " ++ showRat x)
+            | .error e => some ("1 " ++ showErr e)
+          else some "0"
+      | _ => none
+  | _ => none
+
 end Evo.Drv.C18
